@@ -131,11 +131,13 @@ type logEntry struct {
 }
 
 type closerRec struct {
-	scope    int
-	status   int32 // 1 running/blocked, 2 returned nil, 3 returned error, 4 panicked
-	errAfter int32 // len(Errors()) read right after Close returned
-	logLenAt int   // log length when the closer was started
-	first    bool  // first Close of that scope
+	scope       int
+	status      int32 // 1 running/blocked, 2 returned nil, 3 returned error, 4 panicked
+	errAfter    int32 // len(Errors()) read right after Close returned
+	logLenAt    int   // log length when the closer was started
+	logLenAfter int   // ... and after the step that started it settled
+	reported    bool
+	first       bool // first Close of that scope
 }
 
 type stepObs struct {
@@ -160,8 +162,9 @@ type world struct {
 	baseG      int
 	sequential bool
 	lastFiring int
-	tasks      []int  // harness bookkeeping: accepted AddTasks - DoneTask
-	regOn      []int  // parent on which the child registered (-1: none)
+	tasks      []int // harness bookkeeping: accepted AddTasks - DoneTask
+	regOn      []int // parent on which the child registered (-1: none)
+	createdAt  []int // number of Close calls issued before the scope was created
 	hang       bool
 	quiet      bool
 	nextLid    int
@@ -344,6 +347,7 @@ func (w *world) addScope(s app.Scope, ctx, par, reg int) int {
 	w.scopeDepth = append(w.scopeDepth, d)
 	w.tasks = append(w.tasks, 0)
 	w.regOn = append(w.regOn, reg)
+	w.createdAt = append(w.createdAt, len(w.closers))
 	w.mu.Lock()
 	w.sidIdx[s.SID()] = len(w.scopes) - 1
 	w.mu.Unlock()
@@ -478,13 +482,16 @@ func (o stepObs) coq() string {
 
 // seqResult is what a sequential history showed.
 type seqResult struct {
-	Hist   []sop
-	Obs    []stepObs
-	Errs   [][]int
-	Log    []logEntry
-	Hang   bool
-	W      *world
-	Ended  string // why the history was cut short ("" = ran to the end)
+	Hist       []sop
+	Obs        []stepObs
+	Errs       [][]int
+	Log        []logEntry
+	Hang       bool
+	W          *world
+	Ended      string // why the history was cut short ("" = ran to the end)
+	CStatus    []int  // closer statuses when the history ended (before the world is released)
+	CErrAfter  []int
+	Violations []string // L2: a Close returned although the bookkeeping shows an outstanding task or child
 }
 
 // runSeq executes a history produced step by step by next (which sees the world so far and returns
@@ -508,7 +515,27 @@ func runSeq(next func(w *world, step int) *sop, maxSteps int) seqResult {
 		} else {
 			main = w.apply(*p)
 		}
+		// what the bookkeeping says before the step's effects on closers are looked at
+		before := make([]int, len(w.closers))
+		for i, c := range w.closers {
+			before[i] = w.outstanding(c.scope)
+		}
 		w.settle()
+		if cl != nil {
+			w.mu.Lock()
+			cl.logLenAfter = len(w.log)
+			w.mu.Unlock()
+		}
+		for _, c := range w.closers {
+			st := atomic.LoadInt32(&c.status)
+			if c.first && !c.reported && (st == 2 || st == 3) {
+				c.reported = true
+				if n := w.outstanding(c.scope); n > 0 {
+					res.Violations = append(res.Violations, fmt.Sprintf("Close of scope %d returned with %d outstanding tasks/children (step %d)", c.scope, n, step))
+				}
+			}
+		}
+		_ = before
 		raws = append(raws, w.observe(main))
 		if w.hang {
 			res.Hang = true
@@ -553,6 +580,10 @@ func runSeq(next func(w *world, step int) *sop, maxSteps int) seqResult {
 	w.mu.Lock()
 	res.Log = append([]logEntry{}, w.log...)
 	w.mu.Unlock()
+	for _, c := range w.closers {
+		res.CStatus = append(res.CStatus, int(atomic.LoadInt32(&c.status)))
+		res.CErrAfter = append(res.CErrAfter, int(atomic.LoadInt32(&c.errAfter)))
+	}
 	w.cleanup()
 	return res
 }
@@ -582,9 +613,10 @@ func (w *world) cleanup() {
 		runtime.Gosched()
 		time.Sleep(10 * time.Microsecond)
 	}
+	// stop the plain contexts only: every watcher then acts alone on its isolated context
 	for i, p := range w.ctxIso {
-		if p >= 0 {
-			w.ctxs[i].Stop()
+		if p < 0 {
+			func() { defer func() { recover() }(); w.ctxs[i].Stop() }()
 		}
 	}
 	for i := 0; i < 2000 && runtime.NumGoroutine() > w.baseG; i++ {
@@ -790,7 +822,7 @@ func replayHistory(path string) (seqResult, bool) {
 		Case struct {
 			History []sop `json:"history"`
 		} `json:"case"`
-		History    []sop `json:"history"`
+		History       []sop `json:"history"`
 		Disagreements []struct {
 			Case struct {
 				History []sop `json:"history"`
